@@ -40,6 +40,9 @@ type PSpec struct {
 	Probe         bool         `json:"probe,omitempty"`      // readiness http probe against the harness endpoint
 	ProbeFail     int          `json:"probe_fail,omitempty"` // failure_threshold
 	Liveness      bool         `json:"liveness,omitempty"`
+	LiveFail      int          `json:"live_fail,omitempty"`   // liveness failure_threshold
+	ProbeSeq      []int        `json:"probe_seq,omitempty"`   // scripted probe outcomes (1 ok, 0 fail), then the switch value
+	StopCmd       string       `json:"stop_cmd,omitempty"`    // shutdown.command
 	Disabled      bool         `json:"disabled,omitempty"`
 	Daemon        bool         `json:"daemon,omitempty"`
 	StopTimeout   int          `json:"stop_timeout,omitempty"`
@@ -200,12 +203,14 @@ func BuildYAML(s *LifeSpec, worldID int, probePort int) string {
 				b.WriteString("      exit_on_skipped: true\n")
 			}
 		}
-		if p.StopTimeout != 0 || p.Daemon {
+		if p.StopTimeout != 0 || p.Daemon || p.StopCmd != "" {
 			b.WriteString("    shutdown:\n")
 			if p.StopTimeout != 0 {
 				fmt.Fprintf(&b, "      timeout_seconds: %d\n", p.StopTimeout)
 			}
-			if p.Daemon {
+			if p.StopCmd != "" {
+				fmt.Fprintf(&b, "      command: %s\n", yq(p.StopCmd))
+			} else if p.Daemon {
 				b.WriteString("      command: 'true'\n")
 			}
 		}
@@ -217,7 +222,11 @@ func BuildYAML(s *LifeSpec, worldID int, probePort int) string {
 			fmt.Fprintf(&b, "    readiness_probe:\n      http_get:\n        host: 127.0.0.1\n        port: %d\n        path: /%s\n      period_seconds: 1\n      timeout_seconds: 1\n      failure_threshold: %d\n", probePort, p.Name, ft)
 		}
 		if p.Liveness {
-			fmt.Fprintf(&b, "    liveness_probe:\n      http_get:\n        host: 127.0.0.1\n        port: %d\n        path: /%s\n      period_seconds: 1\n", probePort, p.Name)
+			lf := p.LiveFail
+			if lf == 0 {
+				lf = 3
+			}
+			fmt.Fprintf(&b, "    liveness_probe:\n      http_get:\n        host: 127.0.0.1\n        port: %d\n        path: /%s\n      period_seconds: 1\n      timeout_seconds: 1\n      failure_threshold: %d\n", probePort, p.Name, lf)
 		}
 		if len(p.Deps) > 0 {
 			b.WriteString("    depends_on:\n")
@@ -306,6 +315,11 @@ func RunLifeOpts(seed int64, spec *LifeSpec, lo LifeOpts) *LifeRun {
 		}
 		defer ps.close()
 		port = ps.port()
+		for i := range spec.Procs {
+			if len(spec.Procs[i].ProbeSeq) > 0 {
+				ps.seq[spec.Procs[i].Name] = append([]int(nil), spec.Procs[i].ProbeSeq...)
+			}
+		}
 	}
 	yaml := BuildYAML(spec, w.ID, port)
 	env, err := sim.NewEnv(w, yaml, sim.EnvOpts{Ordered: spec.Ordered, ToRun: spec.ToRun, NoDeps: spec.NoDeps})
